@@ -231,6 +231,9 @@ func (r *Reg) member(p TxP, tx *types.Transaction, id int) *Member {
 func (r *Reg) Define(id int, p TxP) *Rec {
 	tx := p.build(r.ChainID)
 	p.sign(tx)
+	if o, ok := r.byHash[string(tx.Hash())]; ok && o != id {
+		return nil // same hash as an already defined tx: one alias per hash
+	}
 	m := r.member(p, tx, id)
 	rec := &Rec{ID: id, Tx: tx, Members: []*Member{m}}
 	r.finish(rec)
@@ -251,6 +254,11 @@ func (r *Reg) DefineGroup(id int, ps []TxP, rate, gfee int64) (*Rec, error) {
 	if gfee != 0 {
 		g.Txs[0].Fee = gfee
 		g.RebuiltGroup()
+	}
+	for i := range ps {
+		if o, ok := r.byHash[string(g.Txs[i].Hash())]; ok && o != id+i {
+			return nil, types.ErrTxExist
+		}
 	}
 	rec := &Rec{ID: id, Group: true, GFee: gfee, Rate: rate}
 	for i, p := range ps {
